@@ -432,6 +432,8 @@ def c19(ctx):
                   ("spell_pat4", renumber_ids(sample(ctx, read_ndjson(common.export("spell_core_4", "spell", 4, prof="core")), 40000)))]
     for name, recs in spaces:
         rowsp.run_rows(ctx, name, recs, texts("case4", 3) if "case" in name else t3, "caps", excl)
+        # recogniser direction: the real parser's tree for every spelling = Parse.tla's tree; and, in the model, spelling and plain form parse alike
+        run_parse_oracle(ctx, name, recs)
     probe_known(ctx, "caps")
     ctx.exhaustive = False
     ctx.assumptions = ROWS_ASSUME + ["Spell.tla is a generative model: only spellings it produces are covered (the parser is not modelled as a recogniser)"]
@@ -727,6 +729,36 @@ def c05(ctx):
     return "model_checking"
 
 
+def run_parse_oracle(ctx, name, recs, treelemma_is_violation=True):
+    """the parser oracle: Expr::parse_tree on every input vs Parse.tla (tree, named groups, error kind and position)"""
+    d = common.workdir(ctx.prop)
+    inp = os.path.join(d, name + ".pin.ndjson")
+    common.write_ndjson(inp, recs)
+    prefix = os.path.join(d, name + ".parse")
+    common.clean_prefix(prefix)
+    shards = 16 if len(recs) > 3000 else 4
+    common.vh(["parse", "--inputs", inp, "--out", prefix, "--shards", shards])
+    rs = tlc.run_shards("TraceParse", [dict(VH_RECS="%s.%d.ndjson" % (prefix, i)) for i in range(shards)])
+    tlc.require_clean(rs, "TraceParse(%s)" % name)
+    ctx.add_tlc(rs)
+    st = {}
+    for r in rs:
+        for k, v in r.tagged("STATS")[0].items():
+            st[k] = st.get(k, 0) + v
+        for j in r.tagged("REJECT"):
+            ctx.violation("parser: %s -> observed %s, Parse.tla expects %s" % ("".join(j["chars"])[:80], json.dumps(j["observed"])[:300], json.dumps(j["expected"])[:300]),
+                          dict(kind="parse", input=dict(id=1, toks=j["chars"]), got=j))
+        for j in r.tagged("TREELEMMA"):
+            if treelemma_is_violation:
+                raise ToolError("Parse.tla gives different trees for a spelling and its plain form (model-level lemma): %s vs %s" % ("".join(j["chars"]), "".join(j["chars0"])))
+    if st["records"] != len(recs):
+        raise ToolError("TraceParse(%s): %d of %d inputs validated" % (name, st["records"], len(recs)))
+    ctx.cov.setdefault("parser_oracle", {})[name] = st
+    ctx.traces += st["ok"]
+    log("parse oracle %s: %d inputs, %d parse, %d errors, %d rejected" % (name, st["records"], st["parses"], st["parse_errors"], st["rejected"]))
+    return st
+
+
 @check("C06")
 def c06(ctx):
     ctx.rule = ("inputs = every sequence of up to N fragments of the 111-fragment vocabulary of Contract.tla (exported by TLC), the amplification family "
@@ -736,6 +768,12 @@ def c06(ctx):
                 "it was processing; distinct non-trivial = inputs that reach an Err or compile (all do, by the contract)")
     common.build_harness("debug")
     n = 2 if ctx.quick else 3
+    # design level: the parser MODEL never reports a position beyond the pattern and only builds well-formed trees, for ALL short strings
+    mlen = 3 if ctx.quick else 4
+    rmc = tlc.run_mc(ctx, "MC_Parse", "SPECIFICATION Spec\nCONSTANT MaxLen = %d\nINVARIANT ErrorPositionInRange\nINVARIANT TreeWellFormed\nCHECK_DEADLOCK FALSE\n" % mlen,
+                     workers=16, xmx="16g", coverage=False)
+    mc_violation(ctx, rmc, "MC_Parse(MaxLen=%d)" % mlen)
+    ctx.cov["mc_parse"] = dict(max_len=mlen, alphabet=24, distinct_states=rmc.distinct)
     vocab = read_ndjson(common.export("vocab_%d" % n, "vocab", n, timeout=3600))
     amp = read_ndjson(common.export("amp", "amp", 0))
     stress = read_ndjson(common.export("stress", "stress", 0))
@@ -761,6 +799,11 @@ def c06(ctx):
     d = common.workdir("C06")
     for name, recs in (("vocab_le%d" % n, vocab), ("amplified", amp), ("stressors", stress), ("random", rnd), ("mutations", mut)):
         outs = compilep.run_inputs(ctx, name, recs)
+        # the parser stage has an exact oracle: Parse.tla
+        prec = [r for r in recs if not ("k" in r and r["k"] > 64)]
+        if len(prec) > 60000:
+            prec = sample(ctx, prec, 60000)
+        run_parse_oracle(ctx, name, prec)
         shards = 16 if len(outs) > 5000 else 2
         prefix = os.path.join(d, name + ".out")
         common.clean_prefix(prefix)
@@ -1002,6 +1045,14 @@ def replay(ctx, path):
         rej = rs[0].tagged("REJECT")
         print(json.dumps(rej, indent=1))
         if rej:
+            print("VIOLATION property=%s replay=%s" % (ctx.prop, path))
+            return 1
+        return 0
+    if d.get("kind") == "parse":
+        sub = common.Ctx(ctx.prop, ctx.tier, ctx.seed)
+        run_parse_oracle(sub, "replay", [d["input"]])
+        print(json.dumps([v["what"] for v in sub.violations], indent=1))
+        if sub.violations:
             print("VIOLATION property=%s replay=%s" % (ctx.prop, path))
             return 1
         return 0
